@@ -493,6 +493,7 @@ func ipamHistory(c map[string]interface{}) map[string]interface{} {
 	for _, op := range ops {
 		opm := op.(map[string]interface{})
 		o := Guarded(10*time.Second, func() map[string]interface{} {
+			w.hcli.tick()
 			ex := w.resolve(opm)
 			r := w.runOp(ex)
 			if Str(ex, "op") == "restart" {
@@ -511,5 +512,5 @@ func ipamHistory(c map[string]interface{}) map[string]interface{} {
 			break
 		}
 	}
-	return map[string]interface{}{"res": "ok", "steps": steps}
+	return map[string]interface{}{"res": "ok", "steps": steps, "cache_reads": w.hcli.cacheReads}
 }
